@@ -5,5 +5,5 @@ import "ex.com/c09/kf/b8lib"
 
 func F() int {
 	h := b8lib.Holder{F: &b8lib.T{}}
-	return *h.F.M() //KNOWN:F41-b8
+	return *h.F.M() //REPORT
 }
